@@ -350,14 +350,17 @@ def evaluate(dic, cmd, cfg, emitted, with_constraints=None, reload=None):
                       f"parameters requiring grad"))
     # ---- input immutability: evaluation and backward leave every Parameter as it was loaded
     for i, t0 in snapshot.items():
-        if not torch.equal(dic[i].tensor.detach(), t0):
+        t1 = dic[i].tensor.detach()
+        same = torch.equal(t1, t0) or (t1.shape == t0.shape and t1.dtype == t0.dtype and t1.is_floating_point()
+                                       and bool(torch.allclose(t1, t0, rtol=0.0, atol=0.0, equal_nan=True)))
+        if not same:  # a NaN that was loaded (itself reported as non-finite) and is still a NaN has not been mutated
             fails.append((f"eval:input-mutated:{i}", f"`{i}` changed from {t0.tolist()} to {dic[i].tensor.detach().tolist()} by evaluating"))
             break
     # ---- history: same call twice; then update one moved parameter and compare with a fresh load given the same value
     try:
         with torch.no_grad():
             again = target()
-        if not torch.equal(again.detach(), lp.detach()):
+        if not torch.equal(again.detach(), lp.detach()) and not (torch.isnan(again).all() and torch.isnan(lp).all()):
             fails.append(("eval:second-evaluation-differs", f"{lp.tolist()} then {again.tolist()}"))
         if reload is not None:
             for p in params[:2]:
